@@ -46,6 +46,13 @@ def verify_function(key, want_props=None, cross=False):
             return out
         fi = repo.funcs[key]
         out['file'], out['lines'], out['sha256'] = fi.file, list(fi.lines), fi.sha256
+        c = REGISTRY[key]
+        out['bounded_clauses'] = [cl.label for cl in c.ensures if cl.bounded]
+        if c.mode == 'bounded':
+            out['status'] = 'bounded-only'
+            out['bounded_clauses'] = [cl.label for cl in c.ensures] + [f'raises:{e}' for e, _ in c.raises]
+            out['wall_s'] = round(time.time() - t0, 3)
+            return out
         engines = []
         eng = Engine(repo, key, B)
         eng.run()
